@@ -3,6 +3,7 @@
 package corpus
 
 import (
+	"bytes"
 	"context"
 	"fmt"
 	"math/rand"
@@ -72,6 +73,7 @@ var Funcs = map[string]func() string{
 	"nested-select":         nestedSelect,
 	"struct-with-timers":    structWithTimers,
 	"sync-pool":             syncPool,
+	"shared-objects":        sharedObjects,
 }
 
 func switchEmptyCases() string {
@@ -763,4 +765,59 @@ func syncPool() string {
 	local.Put(out)
 	got, _ := local.Get().(string)
 	return out + got
+}
+
+// objects that are not safe for concurrent use, used correctly (under a lock, or by one goroutine):
+// the access tracking must neither change results nor raise an alarm, also when the holder is nil
+type registry struct {
+	mu    sync.Mutex
+	byKey map[string]int
+	rng   *rand.Rand
+	buf   bytes.Buffer
+	inner *registry
+}
+
+var table = map[string]int{"a": 1}
+
+func (r *registry) put(k string, v int) {
+	r.mu.Lock()
+	defer r.mu.Unlock()
+	r.byKey[k] = v
+	r.byKey[k]++
+	if old, ok := r.byKey["gone"]; ok && old > 0 {
+		delete(r.byKey, "gone")
+	}
+	r.buf.WriteString(k)
+}
+
+func (r *registry) sum() int {
+	r.mu.Lock()
+	defer r.mu.Unlock()
+	n := 0
+	for _, v := range r.byKey {
+		n += v
+	}
+	return n + r.rng.Intn(1) + table["a"]
+}
+
+func sharedObjects() string {
+	r := &registry{byKey: map[string]int{"gone": 1}, rng: rand.New(rand.NewSource(1))}
+	var wg sync.WaitGroup
+	for i := 0; i < 3; i++ {
+		wg.Add(1)
+		go func(i int) {
+			defer wg.Done()
+			r.put(fmt.Sprint("k", i), i)
+		}(i)
+	}
+	wg.Wait()
+	var none *registry
+	// the holder may be nil where the access is guarded: announcing it ahead must not crash
+	if none != nil && none.byKey["x"] > 0 {
+		return "unreachable"
+	}
+	if r.inner != nil {
+		r.inner.byKey["x"] = 1
+	}
+	return fmt.Sprint(r.sum(), len(r.buf.String()))
 }
